@@ -446,6 +446,52 @@ pub fn run(rep: &mut Rep) {
         }
         super::add_counters(rep, &w);
     }
+    // messages of every size class up to the four-byte remaining length, for two subscriptions at once, under whole and small reads
+    {
+        let sizes: Vec<usize> = if rep.quick() { vec![0, 127, 128, 16_383, 16_384, 70_000, 2_097_100, 2_097_152, 2_100_000] } else { vec![0, 1, 126, 127, 128, 129, 16_380, 16_383, 16_384, 16_390, 70_000, 300_000, 2_097_100, 2_097_140, 2_097_152, 2_100_000, 9_000_000] };
+        rep.note(&format!("messages of every size class: payloads of {:?} bytes (QoS 0/1/2) carrying the identifiers of two subscriptions, read whole / in 4096-byte / 700-byte reads: both streams yield the message intact, a small message behind it too", sizes));
+        let mut sidx = 64_000_000u64;
+        for (si, &sz) in sizes.iter().enumerate() {
+            for (ci, cap) in [usize::MAX, 4096, 700].into_iter().enumerate() {
+                let id = format!("size-class:{sz}:{ci}");
+                sidx += 1;
+                if !rep.take(sidx, &id) {
+                    continue;
+                }
+                let mut w = World::boot(WorldCfg { seed: rep.seed, ..Default::default() });
+                w.sim.log_enabled = sz < 10_000;
+                let mut subs = Vec::new();
+                for j in 0..2 {
+                    let i = w.start(j, Kind::Sub);
+                    w.settle_check();
+                    w.deliver_ack(i, 1, 0, 0);
+                    w.settle_check();
+                    w.take_stream(i);
+                    subs.push(w.sub_id_of(i).unwrap_or(1 + j as u32));
+                }
+                w.sim.reader.0.borrow_mut().default_cap = cap;
+                let q = ((si + ci) % 3) as u8;
+                w.in_publish_sized(q, 9, false, &subs, sz);
+                w.in_publish(1, 10, false, &subs[..1], false);
+                w.settle_check();
+                if q == 2 {
+                    w.in_pubrel(9);
+                    w.settle_check();
+                }
+                finish(&mut w);
+                rep.add("evaluations", 1);
+                rep.add("size_class_cases", 1);
+                if sz >= 2_097_152 {
+                    rep.add("messages_with_a_four_byte_remaining_length", 1);
+                }
+                rep.distinct(&("size-class", sz, ci));
+                if super::harvest(rep, &mut w, &id) == 0 {
+                    rep.sample(|| format!("{id}: {} items compared", w.counters.stream_items_checked));
+                }
+                super::add_counters(rep, &w);
+            }
+        }
+    }
     let mut wa = a.clone();
     wa.max_ops = 12;
     wa.max_conc = 4;
